@@ -585,6 +585,17 @@ Section PoolProofs.
     rewrite (proj1 (schedule_free tasks s0' sched' H0)). reflexivity.
   Qed.
 
+  (* n_jobs = None / 1: one worker takes the tasks in order; every other complete schedule (any
+     n_jobs, any interleaving) delivers what that sequential run delivers *)
+  Lemma sequential_run_agrees : forall (tasks : list A) (s0 : St) sched,
+    complete (length tasks) sched ->
+    parallel_map (pure_task f) tasks s0 sched =
+    parallel_map (pure_task f) tasks s0 (seq 0 (length tasks)).
+  Proof.
+    intros tasks s0 sched Hc. apply schedule_free_any_two; [exact Hc|].
+    apply permutation_complete. apply Permutation_refl.
+  Qed.
+
   (* ---- two-phase pool: starts and finishes interleave arbitrarily ---- *)
 
   Definition reg_good (tasks : list A) (r : regs B) : Prop :=
